@@ -117,6 +117,16 @@ func installNatives(it *Interp) {
 		}
 		return nil
 	}
+	n["slices.SortFunc"] = func(it *Interp, args []Value) []Value {
+		if s, ok := args[0].(*SliceV); ok && s != nil {
+			sort.SliceStable(s.elems, func(i, j int) bool {
+				res := it.callValue(nil, args[1], []Value{s.elems[i], s.elems[j]})
+				c, _ := res[0].(int64)
+				return c < 0
+			})
+		}
+		return nil
+	}
 	n["slices.Compact"] = func(it *Interp, args []Value) []Value {
 		s, ok := args[0].(*SliceV)
 		if !ok || s == nil {
@@ -206,16 +216,25 @@ func (it *Interp) typeConst(name string) int64 {
 	return v.(int64)
 }
 
+// newTree evaluates tree.New(inline, switch, noast): the model starts from
+// whatever the constructor initialises (maps included).
+func (it *Interp) newTree(opts modelOpts) *Obj {
+	for fn, fd := range it.decls {
+		if fn.Name() == "New" && fd.Recv == nil {
+			res := it.invoke(nil, &Closure{name: "New", typ: fd.Type, body: fd.Body, lit: fd, decl: fd, env: newEnv(nil)}, []Value{opts.Inline, opts.Switch, !opts.Ast})
+			if t, ok := res[0].(*Obj); ok {
+				return t
+			}
+		}
+	}
+	panic(undecided{"tree.New not found or did not return a *Tree"})
+}
+
 func newModel(it *Interp, opts modelOpts) *model {
 	m := &model{it: it, opts: opts, typeVal: map[string]int64{}, opaque: map[*Obj]*opaqueInfo{}}
 	m.nodeT = it.pkg.Scope().Lookup("node").Type()
 	m.treeT = it.pkg.Scope().Lookup("Tree").Type()
-	t := it.newObj(m.treeT)
-	t.field("Rules").v = &MapV{map[any]Value{}}
-	t.field("rulesCount").v = &MapV{map[any]Value{}}
-	t.field("inline").v = opts.Inline
-	t.field("_switch").v = opts.Switch
-	t.field("Ast").v = opts.Ast
+	t := it.newTree(opts)
 	t.field("PackageName").v = "p"
 	t.field("StructName").v = "P"
 	t.field("EndSymbol").v = int64(0x110000)
@@ -380,6 +399,11 @@ func (m *model) stubRule(name string, uses int) *Obj {
 	m.pushBack(ip, m.nilNode())
 	m.pushBack(ip, m.copyNode(rule))
 	m.register(rule, name, uses)
+	if c := m.tree.field("undefined"); c != nil {
+		if mv, ok := c.v.(*MapV); ok && mv != nil {
+			mv.m[name] = true // what link records for a name without a definition
+		}
+	}
 	return rule
 }
 
@@ -683,6 +707,30 @@ func (m *model) runStmts(rg *region, stmts []ast.Stmt) (em *emission) {
 		}
 		return true
 	})
+	// every other local of Compile that the statements read but do not declare
+	// themselves starts at its zero value (e.g. a counter filled by the first pass)
+	if len(stmts) > 0 {
+		start := stmts[0].Pos()
+		for _, st := range stmts {
+			ast.Inspect(st, func(n ast.Node) bool {
+				id, ok := n.(*ast.Ident)
+				if !ok {
+					return true
+				}
+				v, ok := info.Uses[id].(*types.Var)
+				if !ok || v.IsField() || v.Pos() >= start || v.Pos() < rg.fd.Body.Pos() || env.lookup(v) != nil {
+					return true
+				}
+				switch v.Type().Underlying().(type) {
+				case *types.Basic:
+					env.define(v, it.zero(v.Type()))
+				default:
+					env.define(v, &Unknown{"local " + v.Name() + " computed before the analysed region"})
+				}
+				return true
+			})
+		}
+	}
 	occurrence := map[int]int{}
 	// hooks
 	it.hooks = map[ast.Node]func(*Interp, *Closure, []Value) ([]Value, bool){}
